@@ -1047,32 +1047,26 @@ fn u3_cframe_enc() {
     std::mem::forget(cb);
 }
 
-//@ obligation: U3.CFrame.wire
-//@ props: C01 C04 C13
-//@ fns: decode_prop_chunk[Type::CFrame/VariantType::CFrame]
-//@ kind: bounded
-//@ bound: column of 2 values: first rotation byte symbolic (any id incl. invalid ones, or 00 + nine floats), second value a documented id; wire truncated at any length
-//@ checks: functional
-//@ covers: 3
-//@ timeout: 1200
-//@ note: a foreign writer may store an explicit nine-float matrix that equals a basic rotation; it must come back as that matrix
-#[kani::proof]
-#[kani::unwind(12)]
-#[kani::stub(alloc::fmt::format, crate::chunk::__verif::fmt_stub)]
-fn u3_cframe_wire() {
-    let w: [u8; 62] = kani::any();
-    let n: usize = kani::any();
-    kani::assume(n <= 62);
+fn cframe_wire(explicit0: bool) {
+    // explicit0 concrete at every call site: value 0 stored as 00 + nine floats, or as an id byte
+    let mut w: [u8; 62] = kani::any();
+    if explicit0 {
+        w[0] = 0;
+    } else {
+        kani::assume(w[0] != 0);
+    }
     let id0 = w[0];
     // layout: [id0] (+36 bytes if id0 == 0) [id1] then 24 bytes of positions
-    let rot0 = if id0 == 0 { 37 } else { 1 };
+    let rot0 = if explicit0 { 37 } else { 1 };
     let id1 = w[rot0];
     let total = rot0 + 1 + 24;
     kani::assume(id1 != 0);
+    let n: usize = kani::any();
+    kani::assume(n <= total);
     let mut shim = shim2();
     let r = dec_CFrame_CFrame(&w[..n], &TI2, &mut shim);
-    let valid = (id0 == 0 || spec_rotation(id0).is_some()) && spec_rotation(id1).is_some();
-    if n >= total {
+    let valid = (explicit0 || spec_rotation(id0).is_some()) && spec_rotation(id1).is_some();
+    if n == total {
         assert!(r.is_ok() == valid);
     }
     if n < total && valid {
@@ -1081,7 +1075,7 @@ fn u3_cframe_wire() {
     if r.is_ok() {
         let mut d = De::new(&w);
         d.pos = 1;
-        let m0 = if id0 == 0 {
+        let m0 = if explicit0 {
             Matrix3::new(
                 Vector3::new(d.le_f32(), d.le_f32(), d.le_f32()),
                 Vector3::new(d.le_f32(), d.le_f32(), d.le_f32()),
@@ -1099,10 +1093,41 @@ fn u3_cframe_wire() {
         assert!(out!(shim, 1, Variant::CFrame(c) => m3eq(&c.orientation, &m1) && feq(c.position.x, x[1]) && feq(c.position.y, y[1]) && feq(c.position.z, z[1])));
         assert!(once_each(&shim));
     }
-    kani::cover!(r.is_ok() && id0 == 0, "explicit matrix form reached");
-    kani::cover!(r.is_ok() && id0 != 0, "id form reached");
+    kani::cover!(r.is_ok(), "complete valid input reached");
     kani::cover!(r.is_err(), "invalid or truncated input reached");
     std::mem::forget(shim);
+}
+
+//@ obligation: U3.CFrame.wire.id
+//@ props: C01 C04 C13
+//@ fns: decode_prop_chunk[Type::CFrame/VariantType::CFrame]
+//@ kind: bounded
+//@ bound: column of 2 values, both rotations stored as id bytes (any non-zero byte incl. undocumented ids); positions symbolic; wire truncated at any length
+//@ checks: functional
+//@ covers: 2
+//@ timeout: 1200
+#[kani::proof]
+#[kani::unwind(6)]
+#[kani::stub(alloc::fmt::format, crate::chunk::__verif::fmt_stub)]
+fn u3_cframe_wire_id() {
+    cframe_wire(false);
+}
+
+//@ obligation: U3.CFrame.wire.explicit
+//@ tier: thorough
+//@ props: C01 C04 C13
+//@ fns: decode_prop_chunk[Type::CFrame/VariantType::CFrame]
+//@ kind: bounded
+//@ bound: column of 2 values, value 0 stored as 00 + nine symbolic floats, value 1 as an id byte; wire truncated at any length
+//@ checks: functional
+//@ covers: 2
+//@ timeout: 1200
+//@ note: a foreign writer may store an explicit nine-float matrix that equals a basic rotation; it must come back as exactly that matrix
+#[kani::proof]
+#[kani::unwind(6)]
+#[kani::stub(alloc::fmt::format, crate::chunk::__verif::fmt_stub)]
+fn u3_cframe_wire_explicit() {
+    cframe_wire(true);
 }
 
 fn optionalcframe_enc(some_b: bool) {
@@ -1161,6 +1186,7 @@ fn u3_optionalcframe_enc() {
 }
 
 //@ obligation: U3.OptionalCFrame.wire
+//@ tier: thorough
 //@ props: C01 C04 C13
 //@ fns: decode_prop_chunk[Type::OptionalCFrame/VariantType::OptionalCFrame]
 //@ kind: bounded
@@ -1169,7 +1195,7 @@ fn u3_optionalcframe_enc() {
 //@ covers: 3
 //@ timeout: 1200
 #[kani::proof]
-#[kani::unwind(12)]
+#[kani::unwind(6)]
 #[kani::stub(alloc::fmt::format, crate::chunk::__verif::fmt_stub)]
 fn u3_optionalcframe_wire() {
     // 10 id0 id1 <24 bytes positions> 02 p0 p1
@@ -1622,6 +1648,211 @@ fn u3_uniqueid() {
     std::mem::forget(shim);
     std::mem::forget(shimw);
     std::mem::forget(cb);
+}
+
+// ---------------------------------------------------------------- Ref
+fn mkref(s: &str) -> Ref {
+    use std::str::FromStr;
+    match Ref::from_str(s) {
+        Ok(r) => r,
+        Err(_) => Ref::none(),
+    }
+}
+
+//@ obligation: U3.Ref
+//@ props: C01 C03
+//@ fns: serialize_properties[Type::Ref] decode_prop_chunk[Type::Ref/VariantType::Ref]
+//@ kind: bounded
+//@ bound: column of 2 values: a reference to a written instance (file referents symbolic in [0, 2^30]) and a reference to an instance outside the written set or the null Ref
+//@ checks: functional
+//@ covers: 1
+#[kani::proof]
+#[kani::unwind(12)]
+fn u3_ref() {
+    let ra = mkref("a1");
+    let rb = mkref("b2");
+    let outside = mkref("c3");
+    let fa: i32 = kani::any();
+    let fb: i32 = kani::any();
+    kani::assume(fa >= 0 && fa <= (1 << 30) && fb >= 0 && fb <= (1 << 30) && fa != fb);
+    let mut shim_e = EncShim::empty();
+    shim_e.id_to_referent = EncRefMap { keys: [ra, rb], vals: [fa, fb], n: 2 };
+    let null_second: bool = kani::any();
+    let (v0, v1) = (Variant::Ref(rb), Variant::Ref(if null_second { Ref::none() } else { outside }));
+    let mut cb = newcb();
+    assert!(enc_Ref(col2(&v0, &v1), &mut cb, &shim_e).is_ok());
+    let bytes = buffer_of(&cb);
+    // referent array: first value as is, then differences; -1 is the null referent
+    let mut s = Spec::new();
+    s.zz_i32([fb, -1 - fb]);
+    assert!(s.eq(bytes));
+    // instances with file referents fa, fb exist and map to builders ra, rb
+    let mut shim = DecShim::new([fa, fb], 2, ra, rb);
+    let ti = DecTypeInfo::<2> { referents: [fa, fb], type_name: "" };
+    assert!(dec_Ref_Ref(bytes, &ti, &mut shim).is_ok());
+    // inside the written set -> the corresponding new instance; outside / null -> null
+    assert!(out!(shim, 0, Variant::Ref(x) => *x == rb) && out!(shim, 1, Variant::Ref(x) => x.is_none()));
+    assert!(once_each(&shim));
+    kani::cover!(true, "end of harness reached");
+    std::mem::forget(shim);
+    std::mem::forget(cb);
+}
+
+//@ obligation: U3.Ref.wire
+//@ props: C04 C13
+//@ fns: decode_prop_chunk[Type::Ref/VariantType::Ref] RbxReadExt::read_referent_array
+//@ kind: bounded
+//@ bound: column of 2 values; any 8 wire bytes (all referent numbers incl. sums that leave the i32 range) / truncated
+//@ checks: functional
+//@ covers: 2
+#[kani::proof]
+#[kani::unwind(12)]
+fn u3_ref_wire() {
+    let ra = mkref("a1");
+    let rb = mkref("b2");
+    let fa: i32 = kani::any();
+    let fb: i32 = kani::any();
+    kani::assume(fa != fb);
+    let w: [u8; 8] = kani::any();
+    let n: usize = kani::any();
+    kani::assume(n <= 8);
+    let mut shim = DecShim::new([fa, fb], 2, ra, rb);
+    let ti = DecTypeInfo::<2> { referents: [fa, fb], type_name: "" };
+    let r = dec_Ref_Ref(&w[..n], &ti, &mut shim);
+    assert!(r.is_ok() == (n == 8));
+    if n == 8 {
+        let d = De::new(&w).zz_i32::<2>();
+        let e0 = d[0] as i64;
+        let e1 = e0 + d[1] as i64;
+        // accumulated referents; unknown numbers come back as the null Ref
+        if e1 >= i32::MIN as i64 && e1 <= i32::MAX as i64 {
+            let want0 = if e0 == fa as i64 { ra } else if e0 == fb as i64 { rb } else { Ref::none() };
+            let want1 = if e1 == fa as i64 { ra } else if e1 == fb as i64 { rb } else { Ref::none() };
+            assert!(out!(shim, 0, Variant::Ref(x) => *x == want0) && out!(shim, 1, Variant::Ref(x) => *x == want1));
+        }
+        assert!(once_each(&shim));
+    }
+    kani::cover!(r.is_ok(), "complete input reached");
+    kani::cover!(r.is_err(), "truncated input reached");
+    std::mem::forget(shim);
+}
+
+// ---------------------------------------------------------------- Content
+fn content_objects_enc() {
+    let ra = mkref("a1");
+    let rb = mkref("b2");
+    let fa: i32 = kani::any();
+    let fb: i32 = kani::any();
+    kani::assume(fa >= 0 && fa <= (1 << 30) && fb >= 0 && fb <= (1 << 30) && fa != fb);
+    let mut shim_e = EncShim::empty();
+    shim_e.id_to_referent = EncRefMap { keys: [ra, rb], vals: [fa, fb], n: 2 };
+    let (v0, v1) = (Variant::Content(Content::from_referent(ra)), Variant::Content(Content::from_referent(rb)));
+    let mut cb = newcb();
+    assert!(enc_Content(col2(&v0, &v1), &mut cb, &shim_e).is_ok());
+    let bytes = buffer_of(&cb);
+    // SourceTypes (2 = Object), UriCount 0, ObjectCount 2, ObjectRefs as a referent array, ExternalObjectCount 0
+    let mut s = Spec::new();
+    s.zz_i32([2, 2]);
+    s.le_u32(0);
+    s.le_u32(2);
+    s.zz_i32([fa, fb - fa]);
+    s.le_u32(0);
+    assert!(s.eq(bytes));
+    std::mem::forget(cb);
+}
+
+//@ obligation: U3.Content.enc.objects
+//@ props: C01 C03
+//@ fns: serialize_properties[Type::Content]
+//@ kind: bounded
+//@ bound: column of 2 values, both Object contents pointing at written instances (file referents symbolic in [0, 2^30])
+//@ checks: functional
+//@ covers: 1
+//@ timeout: 1200
+//@ note: SourceTypes follows the code (transformed i32 array); docs/binary.md calls it Array(Enum) - discrepancy recorded in DESIGN.md. Round trip = this layout composed with U3.Content.dec.objects over the same independent layout.
+#[kani::proof]
+#[kani::unwind(6)]
+fn u3_content_enc_objects() {
+    content_objects_enc();
+    kani::cover!(true, "end of harness reached");
+}
+
+//@ obligation: U3.Content.dec.objects
+//@ props: C01 C04
+//@ fns: decode_prop_chunk[Type::Content/VariantType::Content]
+//@ kind: bounded
+//@ bound: column of 2 values, both Object contents; wire built by the independent encoder from docs/binary.md with symbolic file referents in [0, 2^30]
+//@ checks: functional
+//@ covers: 1
+//@ timeout: 1200
+//@ note: the k-th Object entry of SourceTypes takes the k-th referent of ObjectRefs (order preserved)
+#[kani::proof]
+#[kani::unwind(6)]
+#[kani::stub(alloc::fmt::format, crate::chunk::__verif::fmt_stub)]
+fn u3_content_dec_objects() {
+    let ra = mkref("a1");
+    let rb = mkref("b2");
+    let fa: i32 = kani::any();
+    let fb: i32 = kani::any();
+    kani::assume(fa >= 0 && fa <= (1 << 30) && fb >= 0 && fb <= (1 << 30) && fa != fb);
+    let mut s = Spec::new();
+    s.zz_i32([2, 2]);
+    s.le_u32(0);
+    s.le_u32(2);
+    s.zz_i32([fa, fb - fa]);
+    s.le_u32(0);
+    let mut shim = DecShim::new([fa, fb], 2, ra, rb);
+    let ti = DecTypeInfo::<2> { referents: [fa, fb], type_name: "" };
+    let r = dec_Content_Content(&s.buf[..s.len], &ti, &mut shim);
+    assert!(r.is_ok());
+    assert!(out!(shim, 0, Variant::Content(c) => match c.value() { ContentType::Object(r) => *r == ra, _ => false }));
+    assert!(out!(shim, 1, Variant::Content(c) => match c.value() { ContentType::Object(r) => *r == rb, _ => false }));
+    assert!(once_each(&shim));
+    kani::cover!(true, "end of harness reached");
+    std::mem::forget(shim);
+}
+
+fn content_mixed() {
+    let ra = mkref("a1");
+    let fa: i32 = kani::any();
+    kani::assume(fa >= 0 && fa <= (1 << 30));
+    let mut shim_e = EncShim::empty();
+    shim_e.id_to_referent = EncRefMap { keys: [ra, ra], vals: [fa, fa], n: 1 };
+    let c: [u8; 2] = kani::any();
+    kani::assume(c[0] < 0x80 && c[1] < 0x80);
+    let uri = unsafe { String::from_utf8_unchecked(vec![c[0], c[1]]) };
+    let (v0, v1) = (Variant::Content(Content::from_uri(uri)), Variant::Content(Content::from_referent(ra)));
+    let mut cb = newcb();
+    assert!(enc_Content(col2(&v0, &v1), &mut cb, &shim_e).is_ok());
+    let bytes = buffer_of(&cb);
+    let mut s = Spec::new();
+    s.zz_i32([1, 2]);
+    s.le_u32(1);
+    s.le_u32(2);
+    s.u8(c[0]);
+    s.u8(c[1]);
+    s.le_u32(1);
+    s.zz_i32([fa]);
+    s.le_u32(0);
+    assert!(s.eq(bytes));
+    std::mem::forget(cb);
+    std::mem::forget(v0);
+}
+
+//@ obligation: U3.Content.mixed
+//@ props: C01 C03
+//@ fns: serialize_properties[Type::Content]
+//@ kind: bounded
+//@ bound: column of 2 values: a 2-character ASCII URI and an Object content
+//@ checks: functional
+//@ covers: 1
+//@ tier: thorough
+//@ timeout: 1200
+#[kani::proof]
+#[kani::unwind(12)]
+fn u3_content_mixed() {
+    content_mixed();
+    kani::cover!(true, "end of harness reached");
 }
 
 //@ canary: yes
